@@ -325,9 +325,12 @@ def run(ctx):
                 if hit:
                     break
             if hit:
-                site_targets.append({"di": hit[0], "op": hit[1], "site": [s_["file"], s_["line"], s_["end_line"]], "opcodes": False, "pattern": s_["pattern"]})
+                site_targets.append({"di": hit[0], "op": hit[1], "site": [s_["file"], s_["line"], s_["end_line"]], "opcodes": False, "pattern": s_["pattern"],
+                                     "key": s_["target"]})
             else:
                 site_targets.append({"di": 0, "part": True, "site": [s_["file"], s_["line"], s_["end_line"]], "opcodes": False, "pattern": s_["pattern"]})
+        for t in site_targets:
+            t["readers_at"] = readers_of(t.get("key"), t["site"], covered, t["di"])
         for t in [t for t in fp_state.get("targets", []) if "site" not in t] + site_targets:
             key = (t["di"], t.get("op", {}).get("op"), t["opcodes"], tuple(t.get("site", ())))
             if key in seen_t or len(seen_t) >= 8:
@@ -799,7 +802,7 @@ def footprint_events(ctx, di, all_events, targets):
         detail = "event %d: location %s: %r -> %r during %s (%s) at %s, pattern %s%s" % (
             i, k_, o_, n_, okey(op), phase, site, p_, (" - refuted by " + REFUTED_BY[p_]) if p_ in REFUTED_BY else "")
         if site is not None and len(site) == 4 and phase.startswith("fresh"):
-            targets.append({"di": di, "op": op, "site": list(site[:3]), "opcodes": phase.endswith("opcode"), "pattern": p_})
+            targets.append({"di": di, "op": op, "site": list(site[:3]), "opcodes": phase.endswith("opcode"), "pattern": p_, "key": k_})
     ctx.obligation("footprint condition [ds%d]: every observed write of every inventory location is an idempotent publication at a "
                    "site of a non-refuted pattern (extracted footprint_ok, %d events)" % (di, len(flat)), ok_model, detail)
 
@@ -1015,6 +1018,30 @@ def targeted_search(ctx, datasets, rng, quick, target):
     ctx.extra["targeted_runs"] = ctx.extra.get("targeted_runs", 0) + runs
 
 
+def readers_of(key, site, covered, di):
+    """statements of the package that mention the attribute / dict key a location is named by, executed by some traced operation
+    of this dataset: [(file, line, op)] - where a victim of a write to that location can be standing"""
+    import re
+    if not key:
+        return []
+    toks = [t for t in re.split(r"[^A-Za-z0-9_]+", str(key)) if t and not t.isdigit() and t not in ("self", "module", "fmd", "class")]
+    if not toks:
+        return []
+    attr = toks[-1]
+    out = []
+    pkg = os.path.join(C.REPO, "fastparquet")
+    for fn in sorted(os.listdir(pkg)):
+        if not fn.endswith(".py"):
+            continue
+        for ln, text in enumerate(open(os.path.join(pkg, fn)).read().split("\n"), 1):
+            if re.search(r"(\.|['\"])%s\b" % re.escape(attr), text) and not (fn == site[0] and site[1] <= ln <= site[2]):
+                for (di_, op_, ph_) in covered.get((fn, ln), []):
+                    if di_ == di and ph_.startswith("fresh"):
+                        out.append([fn, ln, op_])
+                        break
+    return out[:10]
+
+
 def site_search(ctx, datasets, rng, quick, target):
     """A write site (file, line) follows a refuted pattern, or a write observed there is not an idempotent publication.
     Look for the victim with the witness interleavings of the refuted theorems: thread A is preempted right after it LEFT
@@ -1041,6 +1068,20 @@ def site_search(ctx, datasets, rng, quick, target):
     readers = [a, {"op": "schema_text"}, {"op": "columns"}, {"op": "statistics"},
                {"op": "to_pandas", "columns": [first]} if first else {"op": "to_pandas"}, {"op": "count"}]
     runs = 0
+    # two specific preemptions: the reader B stands right BEFORE / right AFTER a statement that uses the location, then the
+    # writer A runs until it is inside (or has just left) the offending statement, then B finishes, then A
+    for fn_b, ln_b, b in target.get("readers_at", []):
+        plans = []
+        for unit_b in ("in", "left"):
+            plans += [([[1, 1, unit_b, fn_b, ln_b], [0, n, "left", file, line], [1, BIG, "lines"], [0, BIG, "lines"]], False) for n in (1, 2)]
+            if OPC["ok"]:
+                plans += [([[1, 1, unit_b, fn_b, ln_b], [0, j, "in", file, line], [1, BIG, "lines"], [0, BIG, "lines"]], [True, False])
+                          for j in (1, 2, 3, 4, 5, 6, 8, 10, 12, 16, 20)]
+        for plan, opc in plans:
+            runs += 1
+            if check_pair(ctx, spec, path, solo, [a, b], plan, "site-double", opc):
+                ctx.extra["site_search_runs"] = ctx.extra.get("site_search_runs", 0) + runs
+                return
     for b in readers:
         plans = [([[0, n, "left", file, line], [1, BIG, "lines"]], False) for n in (1, 2, 3)]
         if OPC["ok"]:
